@@ -1,5 +1,5 @@
 #!/usr/bin/env python3
-"""Regenerate the round-4 .. round-9 tables of DESIGN.md section 11 from seeded/*/meta.json and
+"""Regenerate the round-4 .. round-10 tables of DESIGN.md section 11 from seeded/*/meta.json and
 seeded/RESULTS.json (between the markers)."""
 import json, os, re
 res=json.load(open('/verif/seeded/RESULTS.json'))
@@ -11,8 +11,8 @@ def table(prefix):
         cl=', '.join(sorted(set(c.split(' ')[0] for c in r.get('clauses',[]))))[:80]
         rows.append(f"| {sid} | {meta['property']} | {meta['breaks'][:120]} | {'yes' if r.get('detected') else ('?' if not r else 'NO')} | {cl} | {meta.get('evaluation_history','caught when first run')} |")
     return "| id | property | what it breaks | caught by quick | clauses | history |\n|---|---|---|---|---|---|\n"+"\n".join(rows)
-tot=len([k for k in res if re.match(r'^(r\d-)?c\d+-m\d$',k)])
-det=len([k for k,v in res.items() if re.match(r'^(r\d-)?c\d+-m\d$',k) and v.get('quick',{}).get('detected')])
+tot=len([k for k in res if re.match(r'^(r\d+-)?c\d+-m\d$',k)])
+det=len([k for k,v in res.items() if re.match(r'^(r\d+-)?c\d+-m\d$',k) and v.get('quick',{}).get('detected')])
 thor=[k for k,v in res.items() if v.get('thorough',{}).get('detected') and not v.get('quick',{}).get('detected')]
 text=f"""<!-- SEEDED-TABLES-BEGIN -->
 Fourth round, focus on the EDGES of the input / configuration space (sizes, counts of 0 and 1,
@@ -78,6 +78,16 @@ a 65,537-vertex tree).
 
 {table('r9-')}
 
+Tenth round, HELD OUT: "the kind of change a maintainer would plausibly merge next month, with a
+side effect", produced after the machinery had been frozen (no change of the simulator, the
+workloads or the oracles between the ninth round's fixes and the first evaluation of these 21,
+`/verif/seeded/r10-*`). First evaluation: 19 of 21 caught by the quick tier, 1 more by the
+thorough tier (`r10-c12-m3`, a check-then-act race between strategies), 1 missed (`r10-c12-m2`:
+the oracle looked for the `LIN_INTERP` bit only; clause f2 was added afterwards and catches it).
+This is the one round whose first-run figure says something about changes nobody tuned for.
+
+{table('r10-')}
+
 Probes of my own (no demonstration programs, not counted): `own-hang-1` (a spin loop between
 scheduling points, reported as `t:no-termination` by the watchdog), `own-r6-c11-m3-static` (my
 port of `r6-c11-m3` to a static, caught by C11 after its second phase was made to repeat the
@@ -86,9 +96,9 @@ budget in `dual_rrt_connect`, caught by C12 clause g through the simulated clock
 (`Tool::forward_with_joint_poses` moving link 6 to the tool centre point, caught by the placement
 oracle of C10).
 
-Totals over the nine rounds (final matrix, every kept change against the final machinery, default
+Totals over the ten rounds (final matrix, every kept change against the final machinery, default
 seed): {det} of {tot} seeded changes are caught by the QUICK tier of their property's check. The
-others, besides the three of round 9 named above: `r5-c13-m1` (quick at 2 of 4 seeds, thorough at the default seed: the collision has
+others, besides the three of round 9 and `r10-c12-m3` (thorough tier) named above: `r5-c13-m1` (quick at 2 of 4 seeds, thorough at the default seed: the collision has
 to be on a pair in the tail of the task list at a pool size that leaves a remainder), `c12-m2` (a
 rare event by its author's own account: thorough at 2 of 4 seeds, see below), `r7-c13-m1` (not
 caught: needs an obstacle thinner than a hundredth of a degree of joint motion, see its row),
